@@ -36,9 +36,7 @@ FUNCTIONS = {
         "params": {}, "returns": "int", "modifies": [],
         "ensures": ["result == hash(self._canonical_hash)"],
     },
-}
-LEMMAS = {
-    "eq_implies_equal_hash": {
+    "lemma::eq_implies_equal_hash": {
         "params": {"a": "obj:CanonicalGraph", "b": "obj:CanonicalGraph"},
         "requires": ["a._canonical_hash == b._canonical_hash"],
         "ensures": ["hash(a._canonical_hash) == hash(b._canonical_hash)"],
